@@ -278,7 +278,9 @@ class PyFlow:
         stringy_calls: Sequence[str] = (),
         noreturn: Sequence[str] = (),
         follow_handlers: bool = False,
+        super_targets: Optional[Dict[int, ast.FunctionDef]] = None,
     ) -> None:
+        self.super_targets = super_targets or {}  # id(`super().m(...)` call node) -> next implementation in the MRO
         self.funcs = dict(funcs or {})
         self.methods = dict(methods or {})
         self.names = names or {}
@@ -638,7 +640,8 @@ class PyFlow:
         if name not in self.consts or name in self._const_busy:
             return None
         d = self.consts[name]
-        if not isinstance(d, (ast.Tuple, ast.List, ast.Constant, ast.Set, ast.Dict, ast.BinOp, ast.Name)):
+        wrapped_literal = isinstance(d, ast.Call) and isinstance(d.func, ast.Name) and len(d.args) == 1 and not d.keywords and isinstance(d.args[0], (ast.Tuple, ast.List, ast.Set, ast.Dict))
+        if not isinstance(d, (ast.Tuple, ast.List, ast.Constant, ast.Set, ast.Dict, ast.BinOp, ast.Name)) and not wrapped_literal:
             return None
         self._const_busy.add(name)
         try:
@@ -931,6 +934,9 @@ class PyFlow:
                 if cv is not None:
                     return [(p, cv)]
             if isinstance(e.value, ast.Name) and e.value.id not in p.env:
+                cv = self._const(d, p)
+                if cv is not None:
+                    return [(p, cv)]
                 return [(p, V(self.names.get(d, d)))]
             out = []
             for q, b in self.ev(e.value, p, depth, no_effect=no_effect):
@@ -1050,6 +1056,12 @@ class PyFlow:
 
     def resolve(self, e: ast.Call, p: Path) -> Optional[Tuple[ast.FunctionDef, Optional[Poly]]]:
         f = e.func
+        if isinstance(f, ast.Attribute) and isinstance(f.value, ast.Call) and isinstance(f.value.func, ast.Name) and f.value.func.id == "super" and not f.value.args:
+            fn = self.super_targets.get(id(e))
+            if fn is not None and f.attr not in self.primitives and (self.inline_filter is None or self.inline_filter(f.attr, fn)):
+                nm = next((n for n in self.self_names if n in p.env), self.self_names[0] if self.self_names else "self")
+                return fn, p.env.get(nm, V(nm))
+            return None
         if isinstance(f, ast.Name):
             if f.id in self.primitives:
                 return None
@@ -1098,6 +1110,8 @@ class PyFlow:
             pos, kws = vals[: len(e.args)], vals[len(e.args):]
             for n, v in zip(params, pos):
                 env[n] = v
+            if fn.args.vararg is not None and not any(isinstance(a_, ast.Starred) for a_ in e.args):
+                env[fn.args.vararg.arg] = Poly.atom(("tuple", tuple(pos[len(params):])))
             for n, v in zip(kwn, kws):
                 env[n] = v
             # defaults
